@@ -209,4 +209,40 @@ mod __verif_kani {
         assert!(bp.next_sibling(p) == match fc { Some(c) if c + 1 < len && bitw(&w, c + 1) => Some(c + 1), _ => None });
         assert!(bp.first_child(p) == if p + 1 < len && bitw(&w, p) && bitw(&w, p + 1) { Some(p + 1) } else { None });
     }
+
+    fn contract_select_in_word(x: u64, k: u32) -> u32 {
+        let mut c = 0u32; let mut i = 0u32;
+        while i < 64 { if (x >> i) & 1 == 1 { if c == k { return i; } c += 1; } i += 1; }
+        64
+    }
+    fn contract_block_popcount(block: &[u64]) -> usize {
+        let mut t = 0usize; let mut i = 0;
+        while i < block.len() { t += block[i].count_ones() as usize; i += 1; }
+        t
+    }
+    fn naive_select1(w: &[u64], len: usize, k: usize) -> Option<usize> {
+        let mut c = 0; let mut i = 0;
+        while i < len { if bitw(w, i) { if c == k { return Some(i); } c += 1; } i += 1; }
+        None
+    }
+
+    macro_rules! cspoppy_case {
+        ($name:ident, $rate:expr) => {
+            #[kani::proof]
+            #[kani::unwind(104)]
+            #[kani::stub(crate::util::broadword::select_in_word, contract_select_in_word)]
+            #[kani::stub(crate::bits::scan::block_popcount, contract_block_popcount)]
+            pub fn $name() {
+                let w: [u64; 2] = kani::any();
+                let len = 100usize;
+                let bp = BalancedParens::new_with_cspoppy_config(vec![w[0], w[1]], len, crate::Config { select_sample_rate: $rate });
+                let k: usize = kani::any();
+                assert!(bp.select1(k) == naive_select1(&w, len, k));
+            }
+        };
+    }
+    //@ kind=B props=C04 bound=2_words,len=100,rate=3 fn=WithCsPoppy::{build_with_rate,select1} : CS-Poppy select at a sample rate that is not a power of two: select1(k) == position of the k-th open among the first len bits for every k
+    cspoppy_case!(c04_cspoppy_select_rate3, 3);
+    //@ kind=B props=C04 tier=thorough bound=2_words,len=100,rate=256 fn=WithCsPoppy::{build_with_rate,select1} : default rate
+    cspoppy_case!(c04_cspoppy_select_rate256, 256);
 }
